@@ -18,6 +18,8 @@ REFUTE_KINDS = [
     ('possible division by zero', 'division-by-zero'),
     ('possible bit shift underflow/overflow', 'shift-overflow'),
     ('invariant not satisfied', 'invariant'),
+    ('loop ensures not satisfied', 'loop-ensures'),
+    ('ensures not satisfied', 'loop-ensures'),
     ('decreases not satisfied', 'decreases'),
     ('could not prove termination', 'decreases'),
     ('unreachable', 'reached-unreachable'),
@@ -218,6 +220,12 @@ def verify_bundle(name, workdir, rlimit=30, canary=True):
             '\n'.join(b.text[:600] for b in hard[:3])
         return res
     bd = fn_breakdown(js)
+    if c is not None and (c['json'] is None or 'verification-results' not in c['json']
+                          or c['json']['verification-results'].get('encountered-vir-error')
+                          or (c['json']['verification-results'].get('encountered-error') and not c['json']['verification-results'].get('errors'))):
+        # the canary file itself was rejected (e.g. a unit whose header name differs from its `name`): no vacuity verdict possible
+        res.fatal = 'the ensures-false canary file was rejected by Verus (machinery error, not a verdict): ' + (c['err'] or '')[-1500:]
+        return res
     cbd = fn_breakdown(c['json']) if c else {}
     cblocks = parse_stderr(c['err']) if c else []
     try:
